@@ -7,6 +7,7 @@ of (first thread, deviation map).  Exploration = iterative preemption bounding."
 import copy
 import math
 import os
+import pickle
 import sys
 import threading
 import time
@@ -295,13 +296,42 @@ def _bits(x):
     return repr(x)
 
 
+_FILL = {"n": 0}
+
+
+def _pressure(cls, b, calls, what):
+    """Cache pressure: `calls` sequential, untraced calls on ANOTHER model object of the same class and parameters with values never
+    used before in this process, so that any bounded memo in the library (functools.lru_cache defaults to 128 entries, hand-rolled
+    ones to a few hundred) has evicted the harness bodies' own entries and is full: the bodies then miss, insert and EVICT inside
+    the explored execution, which is where an unlocked eviction / two-step replacement can be preempted."""
+    fm = cls()
+    r = fm.rating
+    for _ in range(calls):
+        _FILL["n"] += 1
+        d = _FILL["n"] * 1e-7 * b
+        if what == "rate":
+            g = [[r(6 * b + d, 2 * b + d)], [r(5 * b - d, 2 * b - d)]]
+            fm.rate(g, ranks=[0, 1] if _FILL["n"] % 2 else [0, 0])
+        else:
+            g = [[r(6 * b + d, 2 * b + d)], [r(5 * b - d, b - d)], [r(4 * b + d, 3 * b + d)]]
+            fm.predict_draw(g)
+            fm.predict_win(g)
+
+
 def harness(name, kind):
-    """-> factory() -> (model, [bodies]); every call builds fresh objects with the same values."""
+    """-> factory() -> (model, [bodies]); every call builds fresh objects with the same values.
+    A name ending in "P<n>" (H14P140) is the same harness under cache pressure: n filler calls before every execution."""
     cls = spaces.model_class(kind)
     b = spaces.BETA0
     s = 0.01 * b
+    fill = 0
+    if "P" in name:
+        name, f = name.split("P")
+        fill = int(f)
 
     def mk():
+        if fill:
+            _pressure(cls, b, fill, "rate" if name in ("H14", "H1", "H8") else "predict")
         core.deterministic_ids(7)
         ls_model = name == "H2"
         if name == "H11":  # user-supplied gamma (the callback itself is user code, not a scheduling point) + large kappa: the floor engages
@@ -356,16 +386,53 @@ def harness(name, kind):
                     return {"obs": obs, "ids": [x.id for x in made]}
                 return body
             bodies = [build("p"), build("q")]
+        elif name == "H13":  # predictors on two games of the SAME shape and player count (the same draw-margin / table entries are
+            # looked up - and, from a cold start, created - by both threads), opposite call order
+            g5 = [[r(5 * b, b, "f0")], [r(7 * b, s, "f1")], [r(6 * b, 3 * b, "f2")]]
+            bodies = [lambda: [_bits(m.predict_draw(g2)), _bits(m.predict_rank(g2)), _bits(m.predict_win(g2))],
+                      lambda: [_bits(m.predict_rank(g5)), _bits(m.predict_draw(g5)), _bits(m.predict_win(g5))]]
+        elif name == "H14":  # IDENTICAL games in both threads (same values, other objects): a value-keyed memo in the shared helpers is
+            # hit by one thread with the key the other thread is in the middle of writing
+            def twin(tag):
+                # a decisive game whose outcome is given out of listing order, then a 3-team game with a tie and two decisive pairs:
+                # several DIFFERENT argument tuples reach the shared helpers within one thread (so a last-call memo misses) and the
+                # SAME tuples, the same outcome vectors and the same team counts occur in both threads (so one thread can hit what
+                # the other is in the middle of writing - or, from a cold start, creating)
+                ga = [[r(6 * b, 2 * b, tag + "0")], [r(5 * b, 2 * b, tag + "1")]]
+                gc = [[r(7 * b, b, tag + "2")], [r(5 * b, 2 * b, tag + "3"), r(4 * b, s, tag + "4")], [r(6 * b, 3 * b, tag + "5")]]
+                gd = [[r(6 * b, b, tag + "6")], [r(5.5 * b, 2 * b, tag + "7")], [r(6.5 * b, 0.5 * b, tag + "8")]]  # three-way tie: three tie pairs
+                return lambda: [_bits(m.rate(ga, ranks=[1, 0])), _bits(m.rate(gc, ranks=[1, 0, 1])), _bits(m.rate(gd, scores=[2, 2, 2]))]
+            bodies = [twin("x"), twin("y")]
+        elif name == "H15":  # identical 3-team games through the three predictors in both threads
+            def twinp(tag):
+                gp = [[r(6 * b, 2 * b, tag + "0")], [r(5 * b, b, tag + "1"), r(4 * b, s, tag + "2")], [r(7 * b, 3 * b, tag + "3")]]
+                return lambda: [_bits(m.predict_win(gp)), _bits(m.predict_draw(gp)), _bits(m.predict_rank(gp))]
+            bodies = [twinp("x"), twinp("y")]
         elif name == "H6":  # same-shaped concurrent updates with opposite outcomes + per-call tau on both
             bodies = [lambda: _bits(m.rate(g0, ranks=[0, 1], tau=0.25 * b)), lambda: _bits(m.rate(g1, ranks=[1, 0], tau=b))]
         else:
             raise KeyError(name)
         return m, bodies
 
+    def probe():
+        """Sequential calls made AFTER the threads have finished, on another model object and fresh ratings, with MORE teams than any
+        harness body uses: a race that corrupts shared state without disturbing the racing calls themselves (a lazily grown table
+        with a duplicated row, a memo entry stored under the wrong key) shows up here."""
+        core.deterministic_ids(11)
+        pm = cls()
+        r = pm.rating
+        g4 = [[r(6 * b, 2 * b)], [r(5 * b, b), r(7 * b, s)], [r(4 * b, 3 * b)], [r(6.5 * b, 0.5 * b)]]
+        g5 = [[r((4 + i) * b, (0.5 + 0.5 * i) * b)] for i in range(5)]
+        out = [_bits(pm.predict_win(g4)), _bits(pm.predict_draw(g4)), _bits(pm.predict_rank(g4)),
+               _bits(pm.predict_win(g5)), _bits(pm.predict_draw(g5)), _bits(pm.predict_rank(g5)),
+               _bits(pm.rate(g4, ranks=[2, 0, 1, 1])), _bits(pm.rate(g5, scores=[3, 1, 4, 1, 5]))]
+        return out
+
+    mk.probe = probe
     return mk
 
 
-HARNESSES = ["H1", "H2", "H3", "H4", "H5", "H6", "H7", "H8", "H9", "H10", "H11", "H12"]
+HARNESSES = ["H1", "H2", "H3", "H4", "H5", "H6", "H7", "H8", "H9", "H10", "H11", "H12", "H13", "H14", "H15"]
 
 
 def solo(mk):
@@ -379,6 +446,11 @@ def solo(mk):
             out.append(("ok", bi[i]()))
         except Exception as e:
             out.append(("exc", type(e).__name__, str(e)[:200]))
+    if getattr(mk, "probe", None) is not None:
+        try:
+            mk.probe_expected = ("ok", mk.probe())
+        except Exception as e:
+            mk.probe_expected = ("exc", type(e).__name__, str(e)[:200])
     return snap0, out
 
 
@@ -389,7 +461,85 @@ def run_once(mk, dev, first, gran, record=False):
     ex.record = record
     ex.run()
     ex.model_snap = e2.snap_model(m)
+    ex.probe = None
+    if getattr(mk, "probe", None) is not None and not ex.deadlock:
+        try:
+            ex.probe = ("ok", mk.probe())
+        except Exception as e:
+            ex.probe = ("exc", type(e).__name__, str(e)[:200])
     return ex
+
+
+# --------------------------------------------------------------------------- cold start: every execution in a pristine child
+class _Res:
+    """What explore()/check() need from an execution that ran in a forked child."""
+
+
+def in_child(fn):
+    """Run fn() in a forked child of THIS process and return its (pickled) result.  Used by the cold-start exploration: the
+    parent has imported the package and never used it, so every child starts from import-time module / class state and the
+    lazily initialised parts of the library (first-use caches, tables, singletons) are initialised INSIDE the explored
+    execution - which is where a two-step publication or a check-then-act window on them can be preempted."""
+    r, w = os.pipe()
+    pid = os.fork()
+    if pid == 0:
+        code = 0
+        try:
+            os.close(r)
+            try:
+                payload = pickle.dumps(("ok", fn()))
+            except BaseException as e:  # harness trouble inside the child: report, never hang the parent
+                payload = pickle.dumps(("err", f"{type(e).__name__}: {e}"))
+            with os.fdopen(w, "wb") as f:
+                f.write(payload)
+        except BaseException:
+            code = 3
+        finally:
+            os._exit(code)
+    os.close(w)
+    with os.fdopen(r, "rb") as f:
+        data = f.read()
+    os.waitpid(pid, 0)
+    if not data:
+        raise core.HarnessError("cold-start child returned nothing")
+    tag, val = pickle.loads(data)
+    if tag != "ok":
+        raise core.HarnessError("cold-start child failed: " + str(val))
+    return val
+
+
+def run_once_cold(mk, dev, first, gran, record=False):
+    def job():
+        ex = run_once(mk, dev, first, gran, record=record)
+        return {"trace": ex.trace, "alive": ex.alive, "helper": ex.helper, "where": ex.where, "results": ex.results,
+                "diverged": ex.diverged, "deadlock": ex.deadlock, "model_snap": ex.model_snap, "probe": ex.probe}
+
+    res = _Res()
+    res.__dict__.update(in_child(job))
+    return res
+
+
+def solo_cold(mk):
+    def one(i):
+        def job():
+            m, bodies = mk()
+            if i < 0:
+                return e2.snap_model(m), len(bodies)
+            try:
+                return ("ok", bodies[i]())
+            except Exception as e:
+                return ("exc", type(e).__name__, str(e)[:200])
+        return job
+
+    snap0, k = in_child(one(-1))
+    if getattr(mk, "probe", None) is not None:
+        def pj():
+            try:
+                return ("ok", mk.probe())
+            except Exception as e:
+                return ("exc", type(e).__name__, str(e)[:200])
+        mk.probe_expected = in_child(pj)
+    return snap0, [in_child(one(i)) for i in range(k)]
 
 
 class Unstable(Exception):
@@ -413,6 +563,10 @@ def check(ex, snap0, solo_res):
             got, want = ("ok", got[1]["obs"]), ("ok", want[1]["obs"])
         if got != want:
             msgs.append(f"thread {t} returned {got} under this schedule but {want} when run alone on a fresh model")
+    want_probe = getattr(ex, "probe_expected", None)
+    if want_probe is not None and getattr(ex, "probe", None) is not None and ex.probe != want_probe:
+        msgs.append(f"after the threads finished, sequential calls on another model object return {str(ex.probe)[:300]} instead of {str(want_probe)[:300]}: "
+                    "the interleaving left shared (module / class level) state behind that changes later results")
     if len(set(ids)) != len(ids):
         msgs.append(f"rating ids are not unique across the threads: {len(ids) - len(set(ids))} duplicate(s) among {len(ids)} ratings created concurrently")
     if ex.model_snap != snap0:
@@ -449,7 +603,7 @@ def baseline(mk, gran, k):
     return ex
 
 
-def explore(mk, gran, bound, shard=(0, 1), max_exec=None, end_choices="all", only_helper=False):
+def explore(mk, gran, bound, shard=(0, 1), max_exec=None, end_choices="all", only_helper=False, cold=False):
     """end_choices: "all" = at every thread end every live thread may continue (free choice, explored in combination with the
     preemptions); "serial" = free thread-end choices are explored only in executions without preemption (all serial orders),
     preempted executions continue with the lowest live thread (used by the quick tier for the 3-thread harness).
@@ -457,10 +611,23 @@ def explore(mk, gran, bound, shard=(0, 1), max_exec=None, end_choices="all", onl
     functions all five model files call and the natural home of module-level scratch state; this keeps b <= 2 affordable
     on every change (a few thousand executions) while the unrestricted b <= 2 search runs in the thorough tier."""
     """Iterative preemption bounding.  Returns dict(executions per bound, points, outcomes, violations)."""
-    m, bodies = mk()
-    k = len(bodies)
-    snap0, solo_res = solo(mk)
-    base = baseline(mk, gran, k)
+    if cold:
+        # cold start (see in_child): this process must not have run any package code beyond the import; line granularity only
+        # (CPython instruments code objects for opcode events lazily, which is interpreter state a fork does not reset)
+        if gran != "line":
+            raise core.HarnessError("cold-start exploration is defined for line granularity")
+        run = run_once_cold
+        snap0, solo_res = solo_cold(mk)
+        k = len(solo_res)
+        a, b_ = run(mk, {}, 0, gran, record=True), run(mk, {}, 0, gran, record=True)
+        base = a
+        base.stable = (a.trace, a.where, a.results) == (b_.trace, b_.where, b_.results)
+    else:
+        run = run_once
+        m, bodies = mk()
+        k = len(bodies)
+        snap0, solo_res = solo(mk)
+        base = baseline(mk, gran, k)
     res = {"executions": [0] * (bound + 1), "points": len(base.trace), "outcomes": {}, "violations": [],
            "capped": False, "threads": k, "points_per_thread": [sum(1 for t in base.trace if t == j) for j in range(k)],
            "unstable": 0, "baseline_stable": bool(getattr(base, "stable", True))}
@@ -471,6 +638,7 @@ def explore(mk, gran, bound, shard=(0, 1), max_exec=None, end_choices="all", onl
         key = repr([(r[0], r[1]["obs"]) if (r and r[0] == "ok" and isinstance(r[1], dict) and "obs" in r[1]) else r for r in ex.results])
         res["outcomes"][key] = res["outcomes"].get(key, 0) + 1
         res["executions"][cost] += 1
+        ex.probe_expected = getattr(mk, "probe_expected", None)
         try:
             msgs = check(ex, snap0, solo_res)
         except Unstable:
@@ -483,7 +651,7 @@ def explore(mk, gran, bound, shard=(0, 1), max_exec=None, end_choices="all", onl
 
     counter = [0]
     for first in range(k):
-        e0 = run_once(mk, {}, first, gran)
+        e0 = run(mk, {}, first, gran)
         if sk == 0:
             account(e0, {}, first, 0)
         stack = [(e0, {}, 0, -1)]
@@ -517,7 +685,7 @@ def explore(mk, gran, bound, shard=(0, 1), max_exec=None, end_choices="all", onl
                         return res
                     nd = dict(dev)
                     nd[i] = u
-                    e1 = run_once(mk, nd, first, gran)
+                    e1 = run(mk, nd, first, gran)
                     total += 1
                     account(e1, nd, first, ncost)
                     stack.append((e1, nd, ncost, i))
